@@ -177,7 +177,7 @@ def one_case(loop, u, uploads, rnd):
 
 
 def main(pid, rep=None, finish=True):
-    rep = rep or evidence.Report(pid, "model_checking")
+    rep = rep or evidence.Report(pid, "exploration" if pid == "C19" else "model_checking")
     thorough = rep.tier == "thorough"
     rnd = random.Random(rep.seed * 8 + 19)
     own = OWN[pid]
